@@ -274,7 +274,7 @@ PROPS["C01"] = {
             "relations with rational coefficients (products with constants on either side, division, unary +/-), & | -> ^ ! == != between booleans, disjunction statements; "
             "L1 adds class hierarchies, instances, object variables, field accesses through variables, object (dis)equalities; L3 adds state-variable and reusable-resource timelines; "
             "L2p: planted rule problems whose goals interact through one shared variable (real n in [lo, hi]; predicates P(real x) { x ==|<=|>= n; }; 2-4 goals with 2-3 alternative "
-            "subgoals P(x: v), one of them true under the witness value of n, the others clashing with other goals' choices or dead ends outside n's bounds) - here the constraint in "
+            "subgoals P(x: v) - or, one disjunct in three, the constraint v ==|<=|>= n itself -, one of them true under the witness value of n, the others clashing with other goals' choices or dead ends outside n's bounds) - here the constraint in "
             "the rule body of every active atom is re-evaluated on the reported values. "
             "About 2/3 of the problems are planted around a witness. Oracle when solve() returns true: every asserted constraint evaluates to true (three-valued, exact arithmetic "
             "with infinitesimals) on the reported values, for EVERY remaining value of the object variables it mentions; at least one disjunct of every disjunction statement holds. "
